@@ -69,7 +69,8 @@ def pool(inputs, init, reduce_fn, window_shape, strides, padding):
     assert all(
       [len(x) == 2 for x in padding]
     ), f'each entry in padding {padding} must be length 2'
-    padding = ((0, 0),) + padding + ((0, 0),)
+    # one (0, 0) pair per leading batch dimension (there may be several)
+    padding = ((0, 0),) * (inputs.ndim - len(window_shape) - 1) + padding + ((0, 0),)
   y = lax.reduce_window(inputs, init, reduce_fn, dims, strides, padding)
   if is_single_input:
     y = jnp.squeeze(y, axis=0)
